@@ -1727,6 +1727,27 @@ func main() {
 		}
 	}
 
+	if os.Getenv("VERIF_BENCH") != "" {
+		nb, _ := strconv.Atoi(os.Getenv("VERIF_BENCH"))
+		var wgb sync.WaitGroup
+		t0 := time.Now()
+		var tot int64
+		for i := 0; i < nb; i++ {
+			wgb.Add(1)
+			go func(i int) {
+				defer wgb.Done()
+				w := newWorker()
+				n := 0
+				for _, b := range gen.bases[i*500 : i*500+500] {
+					mutations(b.body, false, func(kind string, mb []byte) { w.eval(mb, false); n++ })
+				}
+				atomic.AddInt64(&tot, int64(n))
+			}(i)
+		}
+		wgb.Wait()
+		fmt.Printf("bench workers=%d evals=%d wall=%v per-eval-per-worker=%v\n", nb, tot, time.Since(t0), time.Since(t0)*time.Duration(nb)/time.Duration(tot))
+		os.Exit(0)
+	}
 	if os.Getenv("VERIF_SLOW") != "" {
 		w := newWorker()
 		type sl struct {
